@@ -15,6 +15,7 @@ import (
 	"os"
 	"path/filepath"
 	"strconv"
+	"sort"
 	"strings"
 	"testing"
 	"time"
@@ -26,11 +27,14 @@ import (
 type c20Op struct {
 	Kind    string  `json:"kind"` // block wc label
 	Ext     []int64 `json:"ext,omitempty"`
+	ExtRel  []int   `json:"ext_rel,omitempty"` // further external-trigger counts, given in frames relative to the block's first frame (negative: before it, as the Abaco's separately travelling trigger packets can be), in order
 	Dropped int     `json:"dropped,omitempty"`
 	Skip    int     `json:"skip,omitempty"` // frames skipped before this block (frame numbers jump)
 	Request string  `json:"request,omitempty"`
 	Types   int     `json:"types,omitempty"`
 	Label   string  `json:"label,omitempty"`
+	LongPath bool   `json:"long_path,omitempty"` // START with a base path so long that the run directory can be made but the experiment-state file cannot: rejected
+	N       int     `json:"n,omitempty"` // archive: a raw-data block of so many samples is requested (filled from the following blocks)
 }
 
 type c20Case struct {
@@ -77,6 +81,11 @@ func c20Gen(t *rapid.T) c20Case {
 	c.ViaRPC = rapid.Bool().Draw(t, "viarpc")
 	block := func() c20Op {
 		op := c20Op{Kind: "block", Ext: c20GenExt(t)}
+		if rapid.IntRange(0, 2).Draw(t, "extrel") == 0 {
+			op.Ext = nil
+			op.ExtRel = rapid.SliceOfN(rapid.IntRange(-30, 15), 1, 6).Draw(t, "rel")
+			sort.Ints(op.ExtRel)
+		}
 		if rapid.IntRange(0, 2).Draw(t, "hasdrop") == 0 {
 			op.Dropped = rapid.SampledFrom([]int{1, 2, 17, 1000, 99999999, 1 << 40}).Draw(t, "dropped")
 			op.Skip = rapid.SampledFrom([]int{0, op.Dropped & 0xffff, 5}).Draw(t, "skip")
@@ -90,13 +99,17 @@ func c20Gen(t *rapid.T) c20Case {
 		return c20Op{Kind: "wc", Request: "START", Types: rapid.SampledFrom([]int{1, 2, 3, 1, 0}).Draw(t, "types")}
 	}
 	anyOp := func() c20Op {
-		switch k := rapid.IntRange(0, 19).Draw(t, "opkind"); {
+		switch k := rapid.IntRange(0, 20).Draw(t, "opkind"); {
+		case k == 20:
+			return c20Op{Kind: "archive", N: rapid.SampledFrom([]int{1, 16, 20, 40, 100, 1000}).Draw(t, "archn")}
 		case k < 8:
 			return block()
 		case k < 11:
 			return label()
 		case k < 13:
-			return start()
+			st := start()
+			st.LongPath = rapid.IntRange(0, 3).Draw(t, "longpath") == 0
+			return st
 		case k < 15:
 			return c20Op{Kind: "wc", Request: "STOP"}
 		case k < 16:
@@ -111,7 +124,11 @@ func c20Gen(t *rapid.T) c20Case {
 		ncyc := rapid.IntRange(2, 3).Draw(t, "ncycles")
 		var skel []c20Op
 		for i := 0; i < ncyc; i++ {
-			skel = append(skel, c20Op{Kind: "wc", Request: "START", Types: 1}, block(), label(), block())
+			skel = append(skel, c20Op{Kind: "wc", Request: "START", Types: 1})
+			if rapid.IntRange(0, 2).Draw(t, "archive") == 0 {
+				skel = append(skel, c20Op{Kind: "archive", N: rapid.SampledFrom([]int{20, 40, 100}).Draw(t, "archn2")})
+			}
+			skel = append(skel, block(), label(), block())
 			if rapid.Bool().Draw(t, "pause") {
 				skel = append(skel, c20Op{Kind: "wc", Request: "PAUSE"}, block(), c20Op{Kind: "wc", Request: "UNPAUSE resumed"}, block())
 			}
@@ -331,6 +348,8 @@ func c20Run(c c20Case) (v vVerdict) {
 	var cur *c20Cycle
 	var cycleStart int64
 	cycles, goodCycles := 0, 0
+	archives := 0
+	longStarts := 0
 	pos := c.F0
 	const blockLen = 16
 	closeCycle := func(when string) *vVerdict {
@@ -352,14 +371,36 @@ func c20Run(c c20Case) (v vVerdict) {
 	for i, op := range c.Ops {
 		st := ds.ComputeWritingState()
 		switch op.Kind {
+		case "archive":
+			// a client asks for a block of raw data: the following blocks are copied into it, whatever else goes on
+			if op.N < 1 || op.N > 100000 || ds.archiveBlock.active {
+				continue
+			}
+			file, err := os.CreateTemp(root, "raw_*_inprogress.npz")
+			if err != nil {
+				continue
+			}
+			if err := ds.ArchiveDataBlock(op.N, file, strings.Replace(file.Name(), "_inprogress", "", 1)); err != nil {
+				file.Close()
+				continue
+			}
+			archives++
 		case "block":
 			pos += int64(op.Skip)
 			block := &dataBlock{segments: make([]DataSegment, c.Nchan), nSamp: blockLen}
+			stamp := vPipeT0.Add(time.Duration(pos-c.F0) * time.Microsecond)
+			if ds.archiveBlock.active {
+				stamp = time.Now() // a raw-data request only takes blocks younger than itself
+			}
 			for ch := 0; ch < c.Nchan; ch++ {
 				block.segments[ch] = DataSegment{rawData: make([]RawType, blockLen), framesPerSample: 1, firstFrameIndex: FrameIndex(pos),
-					firstTime: vPipeT0.Add(time.Duration(pos-c.F0) * time.Microsecond), framePeriod: time.Microsecond, droppedFrames: op.Dropped}
+					firstTime: stamp, framePeriod: time.Microsecond, droppedFrames: op.Dropped}
 			}
-			block.externalTriggerRowcounts = append([]int64(nil), op.Ext...)
+			ext := append([]int64(nil), op.Ext...)
+			for _, rel := range op.ExtRel {
+				ext = append(ext, (pos+int64(rel))*int64(c.SubDiv))
+			}
+			block.externalTriggerRowcounts = append([]int64(nil), ext...)
 			if err := ds.ProcessSegments(block); err != nil {
 				return vFailf("process-error", "op %d: %v", i, err)
 			}
@@ -368,7 +409,7 @@ func c20Run(c c20Case) (v vVerdict) {
 				if cur == nil || cur.stopped {
 					return vFailf("state-active-without-start", "op %d: reported state is active but no START is in force", i)
 				}
-				cur.ext = append(cur.ext, op.Ext...)
+				cur.ext = append(cur.ext, ext...)
 				if op.Dropped > 0 {
 					cur.drops = append(cur.drops, [2]int64{pos, int64(op.Dropped)})
 				}
@@ -391,6 +432,17 @@ func c20Run(c c20Case) (v vVerdict) {
 			}
 		case "wc":
 			cfg := &WriteControlConfig{Request: op.Request, WriteLJH22: op.Types&1 != 0, WriteLJH3: op.Types&2 != 0}
+			if op.LongPath {
+				long := filepath.Join(root, "L")
+				for len(long) < 4050-201 {
+					long = filepath.Join(long, strings.Repeat("x", 200))
+				}
+				if pad := 4050 - len(long) - 1; pad > 0 {
+					long = filepath.Join(long, strings.Repeat("y", pad))
+				}
+				cfg.Path = long
+				longStarts++
+			}
 			tReq := time.Now().UnixNano()
 			var err error
 			if c.ViaRPC {
@@ -435,6 +487,15 @@ func c20Run(c c20Case) (v vVerdict) {
 		if f := closeCycle("after the final STOP"); f != nil {
 			return *f
 		}
+	}
+	if ds.archiveBlock.active {
+		ds.finishArchiveBlock() // let the request's writer goroutine end
+	}
+	if archives > 0 {
+		v.Classes = append(v.Classes, "raw-data-archive-requested")
+	}
+	if longStarts > 0 {
+		v.Classes = append(v.Classes, "start-rejected-at-the-state-file")
 	}
 	v.NonTrivial = goodCycles >= 2
 	if c.ViaRPC {
